@@ -26,6 +26,9 @@ BER = "kaira/metrics/signal/ber.py"
 BLER = "kaira/metrics/signal/bler.py"
 BM = "kaira/benchmarks/metrics.py"
 AN = "kaira/channels/analog.py"
+SLF = "kaira/models/fec/decoders/syndrome_lookup.py"
+MLF = "kaira/models/fec/decoders/brute_force_ml.py"
+BMF = "kaira/models/fec/decoders/berlekamp_massey.py"
 GOLF = "kaira/models/fec/encoders/golay_code.py"
 CYCF = "kaira/models/fec/encoders/cyclic_code.py"
 BCHF = "kaira/models/fec/encoders/bch_code.py"
@@ -289,6 +292,20 @@ MUTANTS = {
         ("cyclic accepts non-divisor", CYCF, "            if remainder.value != 0:\n                raise ValueError(\"'generator_polynomial' must be a factor of X^n + 1\")", "            if remainder.value != 0 and remainder.degree > self._generator_poly.degree:\n                raise ValueError(\"'generator_polynomial' must be a factor of X^n + 1\")", "violation", "CYCLIC-LAYOUT"),
         ("code rate inverted", "kaira/models/fec/encoders/base.py", "        return self._dimension / self._length", "        return self._length / self._dimension", "violation", "FORMULA"),
         ("twin: golay dtype noise", GOLF, "        last_column = (1 + row_sums) % 2", "        last_column = (row_sums + 1) % 2", "silent"),
+    ],
+    "C02": [
+        ("syndrome table descending weights", SLF, "for weight in range(1, self.code_length + 1):", "for weight in range(self.code_length, 0, -1):", "violation", "COSET-LEADER"),
+        ("syndrome table overwrite", SLF, "                if syndrome_int not in table:\n                    table[syndrome_int] = error_pattern", "                table[syndrome_int] = error_pattern", "violation", "COSET-LEADER"),
+        ("pattern generator off by one", SLF, "for pos in range(start_pos, self.code_length - ones_left + 1):", "for pos in range(start_pos, self.code_length - ones_left):", "violation", "COSET-LEADER"),
+        ("shared table cache", SLF, "        self._syndrome_table = self._build_syndrome_table()", "        key = (type(encoder).__name__, encoder.code_length, encoder.code_dimension)\n        if key not in _TABLE_CACHE:\n            _TABLE_CACHE[key] = self._build_syndrome_table()\n        self._syndrome_table = _TABLE_CACHE[key]", "violation", "COSET-LEADER"),
+        ("correction OR instead of XOR", SLF, "                corrected = (r + error_pattern) % 2", "                corrected = torch.clamp(r + error_pattern, max=1)", "violation", "COSET-LEADER"),
+        ("ml argmax", MLF, "min_idx = torch.argmin(distances)", "min_idx = torch.argmax(distances)", "violation", "ML"),
+        ("bm syndromes from 0", BCHF, "for i in range(1, 2 * self._error_correction_capability + 1):", "for i in range(0, 2 * self._error_correction_capability):", "violation", "BM"),
+        ("bm chien skips last", BMF, "        for j in range(n):\n            # Calculate alpha^(-j)", "        for j in range(n - 1):\n            # Calculate alpha^(-j)", "violation", "BM"),
+        ("bm row special case", BMF, "                error_positions = self._find_error_locations(error_locator)", "                error_positions = [5] if (len(r) == 15 and i == 1) else self._find_error_locations(error_locator)", "violation"),
+        ("bm syndrome keyed shortcut", BMF, "                error_positions = self._find_error_locations(error_locator)", "                error_positions = [2, 8] if [s.value for s in syndrome] == [11, 9, 9, 13] else self._find_error_locations(error_locator)", "violation", "SPECIAL-CASE"),
+        ("hamming length keyed", HAMF, "        syndrome = self.calculate_syndrome(y)\n", "        syndrome = self.calculate_syndrome(y)\n        if y.shape[-1] == 7:\n            return y[..., :4], syndrome\n", "violation", "SPECIAL-CASE"),
+        ("twin: ml rename", MLF, "min_idx = torch.argmin(distances)", "min_idx = torch.argmin(distances)  # nearest", "silent"),
     ],
 }
 
